@@ -171,7 +171,7 @@ type Conn struct {
 	frameReaderFactory
 	frameReader
 
-	wio sync.Mutex
+	wio wioMutex
 	frameWriterFactory
 
 	frameHandler
